@@ -54,13 +54,14 @@ def gen_world(rng, i, tier):
         sets = []
         secs = [None, "A", "B b", "C"]
         for _ in range(rng.randint(1, 20)):
-            sets.append([rng.pick(secs), rng.pick(["k1", "k2", "Name", "n", "flag"]), rng.pick(grammar.WORDS + ["", "multi\n  line", "\"q\"", "x#y", " lead", "trail ", "  both\t", "tab\tin", "line1\nline2 \n  line3"])])
+            sets.append([rng.pick(secs), rng.pick(["k1", "k2", "Name", "n", "flag"]), rng.pick(grammar.WORDS + ["", "multi\n  line", "\"q\"", "x#y", " lead", "trail ", "  both\t", "tab\tin", "line1\nline2 \n  line3", "L" * 1100, "seg " * 500])])
         w["sets"] = sets
         w["ctor"] = rng.pick(["newKeyFile", "newIniFile", "newOpts"])
         for s, k, _ in sets:
             if [s, k] not in pairs:
                 pairs.append([s, k])
     w["pairs"] = pairs
+    w["partner"] = rng.pick(["other", "twin"])
     w["queries"] = gen_queries(rng, pairs, tier)
     return w
 
@@ -157,8 +158,16 @@ def build_plans(world):
     if hist_member is not None:
         ops.append({"op": "historyMember", "h": 0, "i": hist_member, "o": 4, "tag": "ctor"})
         obj = 4
-    # the partner for merge queries
-    ops.append({"op": "readFile", "o": 1, "path": "$ROOT/other.conf", "delim": "=", "comment": "#", "tag": "partner"})
+    # the partner for merge queries: an unrelated file, or a second object with the SAME sections and keys
+    # (so that every key of the object under test meets a key of the other merge input)
+    if world.get("partner") == "twin" and world["src"] == "parsed":
+        ops.append({"op": "readFile", "o": 1, "path": "$ROOT/in.conf", "delim": D, "comment": C, "tag": "partner"})
+    elif world.get("partner") == "twin" and world["src"] == "built":
+        ops.append({"op": world["ctor"], "o": 1, "delim": 61, "comment": 35, "options": None, "tag": "partner"})
+        for s_, k_, val_ in world["sets"]:
+            ops.append({"op": "set", "k": 1, "type": "String", "group": s_, "key": k_, "v": "twin", "tag": "partner"})
+    else:
+        ops.append({"op": "readFile", "o": 1, "path": "$ROOT/other.conf", "delim": "=", "comment": "#", "tag": "partner"})
 
     def snapshot(tag):
         return [{"op": "dump", "k": obj, "ext": True, "tag": tag}, {"op": "write", "k": obj, "dir": "$ROOT/out", "name": "snap.conf", "readback": True, "tag": tag + "w"}]
